@@ -134,6 +134,9 @@ def need : Compile.Expr → Nat
   | .seq a b => need a + need b + 3
   | .ite c t e => need c + need t + need e + 1
 
+theorem need_pos (e : Compile.Expr) : 1 ≤ need e := by
+  cases e <;> simp only [need] <;> omega
+
 /-! ## the disagreement, concretely -/
 
 /-- `x += x` -/
@@ -313,5 +316,503 @@ theorem ceval_ifThen (c t : Compile.Expr) (ρ : Compile.Env S) :
   repeat' (first | rfl | split)
 
 end
+
+/-! ## plain values stay plain under `Compile.eval (coreSem F)` -/
+
+theorem PlainEnv.set {F : FloatOps} {ρ : Compile.Env (coreSem F)} (h : PlainEnv ρ) (x : Nat) (v : Val)
+    (hv : plain v = true) : PlainEnv (Compile.Env.set ρ x v) := by
+  intro y w hy
+  simp only [Compile.Env.set] at hy
+  split at hy
+  · cases hy; exact hv
+  · exact h y w hy
+
+theorem PlainEnv.empty {F : FloatOps} : PlainEnv (F := F) (fun _ => none) := by
+  intro x v h; cases h
+
+theorem ceval_plain (F : FloatOps) : ∀ (e : Compile.Expr) (ρ ρ' : Compile.Env (coreSem F)) (v : Val),
+    PlainEnv ρ → Compile.eval (coreSem F) e ρ = some (v, ρ') → plain v = true ∧ PlainEnv ρ' := by
+  intro e
+  induction e with
+  | null | bool _ | int _ =>
+    intro ρ ρ' v hp h
+    simp only [Compile.eval, Option.some.injEq, Prod.mk.injEq] at h
+    obtain ⟨h1, h2⟩ := h; subst h1 h2; exact ⟨rfl, hp⟩
+  | var x =>
+    intro ρ ρ' v hp h
+    simp only [Compile.eval, Option.map_eq_some_iff, Prod.mk.injEq] at h
+    obtain ⟨w, hw, h1, h2⟩ := h; subst h1 h2
+    exact ⟨hp x w hw, hp⟩
+  | un op a iha =>
+    intro ρ ρ' v hp h
+    rw [ceval_un] at h
+    obtain ⟨va, ρ1, ha, h⟩ := obind_some h
+    simp only [Option.map_eq_some_iff, Prod.mk.injEq] at h
+    obtain ⟨r, hr, h1, h2⟩ := h; subst h1 h2
+    exact ⟨unop_plain F op va r hr, (iha ρ ρ1 va hp ha).2⟩
+  | bin op a b iha ihb | cmp op a b iha ihb =>
+    intro ρ ρ' v hp h
+    first | rw [ceval_bin] at h | rw [ceval_cmp] at h
+    obtain ⟨va, ρ1, ha, h⟩ := obind_some h
+    obtain ⟨vb, ρ2, hb, h⟩ := obind_some h
+    simp only [Option.map_eq_some_iff, Prod.mk.injEq] at h
+    obtain ⟨r, hr, h1, h2⟩ := h; subst h1 h2
+    have h1 := iha ρ ρ1 va hp ha
+    exact ⟨binop_plain F op va vb r h1.1 hr, (ihb ρ1 ρ2 vb h1.2 hb).2⟩
+  | chain3 op1 op2 a b c iha ihb ihc =>
+    intro ρ ρ' v hp h
+    rw [ceval_chain3] at h
+    obtain ⟨va, ρ1, ha, h⟩ := obind_some h
+    obtain ⟨vb, ρ2, hb, h⟩ := obind_some h
+    have h1 := iha ρ ρ1 va hp ha
+    have h2 := ihb ρ1 ρ2 vb h1.2 hb
+    cases hb1 : (coreSem F).binop op1 va vb with
+    | none => rw [hb1] at h; cases h
+    | some r1 =>
+      rw [hb1] at h
+      simp only at h
+      split at h
+      · obtain ⟨vc, ρ3, hc, h⟩ := obind_some h
+        simp only [Option.map_eq_some_iff, Prod.mk.injEq] at h
+        obtain ⟨r, hr, e1, e2⟩ := h; subst e1 e2
+        exact ⟨binop_plain F op2 vb vc r h2.1 hr, (ihc ρ2 ρ3 vc h2.2 hc).2⟩
+      · simp only [Option.some.injEq, Prod.mk.injEq] at h
+        obtain ⟨e1, e2⟩ := h; subst e1 e2
+        exact ⟨binop_plain F op1 va vb r1 h1.1 hb1, h2.2⟩
+  | and a b iha ihb =>
+    intro ρ ρ' v hp h
+    rw [ceval_and] at h
+    obtain ⟨va, ρ1, ha, h⟩ := obind_some h
+    have h1 := iha ρ ρ1 va hp ha
+    split at h
+    · exact ihb ρ1 ρ' v h1.2 h
+    · simp only [Option.some.injEq, Prod.mk.injEq] at h
+      obtain ⟨e1, e2⟩ := h; subst e1 e2; exact h1
+  | or a b iha ihb =>
+    intro ρ ρ' v hp h
+    rw [ceval_or] at h
+    obtain ⟨va, ρ1, ha, h⟩ := obind_some h
+    have h1 := iha ρ ρ1 va hp ha
+    split at h
+    · simp only [Option.some.injEq, Prod.mk.injEq] at h
+      obtain ⟨e1, e2⟩ := h; subst e1 e2; exact h1
+    · exact ihb ρ1 ρ' v h1.2 h
+  | assign x e ih =>
+    intro ρ ρ' v hp h
+    rw [ceval_assign] at h
+    obtain ⟨ve, ρ1, he, h⟩ := obind_some h
+    simp only [Option.some.injEq, Prod.mk.injEq] at h
+    obtain ⟨e1, e2⟩ := h; subst e1 e2
+    have h1 := ih ρ ρ1 ve hp he
+    exact ⟨h1.1, h1.2.set x ve h1.1⟩
+  | compound op x e ih =>
+    intro ρ ρ' v hp h
+    rw [ceval_compound] at h
+    cases hx : ρ x with
+    | none => rw [hx] at h; cases h
+    | some vx =>
+      rw [hx] at h
+      simp only at h
+      obtain ⟨ve, ρ1, he, h⟩ := obind_some h
+      simp only [Option.map_eq_some_iff, Prod.mk.injEq] at h
+      obtain ⟨r, hr, e1, e2⟩ := h; subst e1 e2
+      have h1 := ih ρ ρ1 ve hp he
+      have hr' := binop_plain F op vx ve r (hp x vx hx) hr
+      exact ⟨hr', h1.2.set x r hr'⟩
+  | seq a b iha ihb =>
+    intro ρ ρ' v hp h
+    rw [ceval_seq] at h
+    obtain ⟨va, ρ1, ha, h⟩ := obind_some h
+    exact ihb ρ1 ρ' v (iha ρ ρ1 va hp ha).2 h
+  | ite c t e ihc iht ihe =>
+    intro ρ ρ' v hp h
+    rw [ceval_ite] at h
+    obtain ⟨vc, ρ1, hc, h⟩ := obind_some h
+    have h1 := ihc ρ ρ1 vc hp hc
+    split at h
+    · exact iht ρ1 ρ' v h1.2 h
+    · exact ihe ρ1 ρ' v h1.2 h
+  | ifThen c t ihc iht =>
+    intro ρ ρ' v hp h
+    rw [ceval_ifThen] at h
+    obtain ⟨vc, ρ1, hc, h⟩ := obind_some h
+    have h1 := ihc ρ ρ1 vc hp hc
+    split at h
+    · exact iht ρ1 ρ' v h1.2 h
+    · simp only [Option.some.injEq, Prod.mk.injEq] at h
+      obtain ⟨e1, e2⟩ := h; subst e1 e2; exact ⟨rfl, h1.2⟩
+
+/-! ## `Core.eval` on the image of `toCore`, one step -/
+
+/-- the comparison step of a chain: error, stop with `false`, or go on -/
+def chainStep (r : Except Err Bool) (s : St) (k : St → Res Val × St) : Res Val × St :=
+  match r with
+  | .error e => (.err e, s)
+  | .ok false => (.ok (.bool false), s)
+  | .ok true => k s
+
+/-- the last step of a compound assignment -/
+def finishOp (r : Except Err Val) (x : Nat) (s : St) : Res Val × St :=
+  match r with
+  | .ok r => (.ok r, s.set x r)
+  | .error e => (.err e, s)
+
+theorem eval_lit' (F : FloatOps) (n : Nat) (v : Val) (s : St) : eval F (n + 1) (.lit v) s = (.ok v, s) := by
+  simp only [eval]
+
+theorem eval_var_some (F : FloatOps) (n x : Nat) (s : St) (v : Val) (h : lookup x s.env = some v) :
+    eval F (n + 1) (.var x) s = (.ok v, s) := by
+  simp only [eval, h]
+
+theorem eval_var_none (F : FloatOps) (n x : Nat) (s : St) (h : lookup x s.env = none) :
+    eval F (n + 1) (.var x) s = (.err .unbound, s) := by
+  simp only [eval, h]
+
+theorem eval_neg' (F : FloatOps) (n : Nat) (a : Expr) (s : St) :
+    eval F (n + 1) (.neg a) s = seq (eval F n a s) fun v s => lift (negV F v) s := by
+  simp only [eval]
+
+theorem eval_not' (F : FloatOps) (n : Nat) (a : Expr) (s : St) :
+    eval F (n + 1) (.not a) s = seq (eval F n a s) fun v s => (.ok (.bool (!v.truthy)), s) := by
+  simp only [eval]
+
+theorem eval_arith' (F : FloatOps) (n : Nat) (op : ArithOp) (a b : Expr) (s : St) :
+    eval F (n + 1) (.arith op a b) s
+      = seq (eval F n a s) fun va s => seq (eval F n b s) fun vb s => lift (arithV F op va vb) s := by
+  simp only [eval]
+
+theorem eval_cmp' (F : FloatOps) (n : Nat) (a : Expr) (ch : Chain) (s : St) :
+    eval F (n + 1) (.cmp a ch) s = seq (eval F n a s) fun va s => evalChain F n va ch s := by
+  simp only [eval]
+
+theorem evalChain_last (F : FloatOps) (n : Nat) (prev : Val) (op : CmpOp) (e : Expr) (s : St) :
+    evalChain F (n + 1) prev (.cons op e .nil) s
+      = seq (eval F n e s) fun v s => chainStep (cmpV F op prev v) s fun s => (.ok (.bool true), s) := by
+  simp only [evalChain]
+  congr 1
+
+theorem evalChain_more (F : FloatOps) (n : Nat) (prev : Val) (op op2 : CmpOp) (e e2 : Expr) (rest : Chain) (s : St) :
+    evalChain F (n + 1) prev (.cons op e (.cons op2 e2 rest)) s
+      = seq (eval F n e s) fun v s =>
+          chainStep (cmpV F op prev v) s fun s => evalChain F n v (.cons op2 e2 rest) s := by
+  simp only [evalChain]
+  congr 1
+
+theorem eval_opAssign_some (F : FloatOps) (n x : Nat) (op : ArithOp) (a : Expr) (s : St) (v0 : Val)
+    (h : lookup x s.env = some v0) :
+    eval F (n + 1) (.opAssign op x a) s
+      = seq (eval F n a s) fun v1 s => finishOp (opAssignV F op v0 v1) x s := by
+  simp only [eval, h]
+  congr 1
+
+theorem eval_opAssign_none (F : FloatOps) (n x : Nat) (op : ArithOp) (a : Expr) (s : St)
+    (h : lookup x s.env = none) :
+    eval F (n + 1) (.opAssign op x a) s = (.err .unbound, s) := by
+  simp only [eval, h]
+
+/-- `a; b` as a two-expression block (four levels of fuel: block, first, second, end) -/
+theorem eval_block2 (F : FloatOps) (n : Nat) (a b : Expr) (s : St) :
+    eval F (n + 4) (.block (.cons a (.cons b .nil))) s
+      = seq (eval F (n + 2) a s) fun _ s => seq (eval F (n + 1) b s) fun v s => (.ok v, s) := by
+  simp only [eval, evalBlock]
+
+theorem eval_ifElse' (F : FloatOps) (n : Nat) (c t e : Expr) (s : St) :
+    eval F (n + 1) (.ifElse c t e) s
+      = seq (eval F n c s) fun vc s => if vc.truthy then eval F n t s else eval F n e s := by
+  simp only [eval]
+
+theorem seq_ok_id {r : Res Val × St} {v : Val} {s : St} (h : r = (.ok v, s)) :
+    (seq r fun v s => (.ok v, s)) = (.ok v, s) := by
+  rw [h]; rfl
+
+/-! ## agreement, in lockstep -/
+
+/-- the outcome `r` of `Compile.eval (coreSem F)` and the outcome `c` of `Core.eval` agree: both
+succeed with the same value, related environments and no new output (`out` = the trace before), or
+both fail -/
+def Agree {F : FloatOps} (r : Option (Val × Compile.Env (coreSem F))) (c : Res Val × St) (out : List Ev) : Prop :=
+  match r with
+  | some (v, ρ') => ∃ st', c = (.ok v, st') ∧ EnvRel ρ' st'.env ∧ st'.out = out
+  | none => ∃ er st', c = (.err er, st')
+
+theorem Agree.ok {F : FloatOps} {v : Val} {ρ' : Compile.Env (coreSem F)} {s : St} (h : EnvRel ρ' s.env) :
+    Agree (some (v, ρ')) (.ok v, s) s.out := ⟨s, rfl, h, rfl⟩
+
+theorem Agree.err {F : FloatOps} (er : Err) (s : St) (out : List Ev) :
+    Agree (F := F) none (.err er, s) out := ⟨er, s, rfl⟩
+
+theorem agree_bind {F : FloatOps} {r : Option (Val × Compile.Env (coreSem F))} {c : Res Val × St}
+    {out : List Ev} {k1 : Val → Compile.Env (coreSem F) → Option (Val × Compile.Env (coreSem F))}
+    {k2 : Val → St → Res Val × St}
+    (h : Agree r c out)
+    (hk : ∀ v ρ1 s1, r = some (v, ρ1) → EnvRel ρ1 s1.env → s1.out = out → Agree (k1 v ρ1) (k2 v s1) s1.out) :
+    Agree (obind (S := coreSem F) r k1) (seq c k2) out := by
+  cases r with
+  | none => obtain ⟨er, st', rfl⟩ := h; exact ⟨er, st', rfl⟩
+  | some p =>
+    obtain ⟨v, ρ1⟩ := p
+    obtain ⟨st', rfl, hr, ho⟩ := h
+    have := hk v ρ1 st' rfl hr ho
+    rw [ho] at this
+    exact this
+
+theorem binop_cmp {F : FloatOps} {op : Compile.BinOp} (h : op.isComparison = true) (a b : Val) :
+    (coreSem F).binop op a b = ofExcept ((cmpV F (toCmp op) a b).map Val.bool) := by
+  simp only [coreSem, h, if_true]
+
+theorem binop_arith {F : FloatOps} {op : Compile.BinOp} (h : op.isComparison = false) (a b : Val) :
+    (coreSem F).binop op a b = ofExcept (arithV F (toArith op) a b) := by
+  simp [coreSem, h]
+
+theorem agree_arith {F : FloatOps} {op : Compile.BinOp} (hop : op.isComparison = false) (va vb : Val)
+    {ρ2 : Compile.Env (coreSem F)} {s2 : St} (hr : EnvRel ρ2 s2.env) :
+    Agree (((coreSem F).binop op va vb).map (fun r => (r, ρ2))) (lift (arithV F (toArith op) va vb) s2) s2.out := by
+  rw [binop_arith hop]
+  cases arithV F (toArith op) va vb with
+  | error e => exact Agree.err e s2 _
+  | ok r => exact Agree.ok hr
+
+theorem agree_cmp_last {F : FloatOps} {op : Compile.BinOp} (hop : op.isComparison = true) (va vb : Val)
+    {ρ2 : Compile.Env (coreSem F)} {s2 : St} (hr : EnvRel ρ2 s2.env) :
+    Agree (((coreSem F).binop op va vb).map (fun r => (r, ρ2)))
+      (chainStep (cmpV F (toCmp op) va vb) s2 fun s => (.ok (.bool true), s)) s2.out := by
+  rw [binop_cmp hop]
+  cases cmpV F (toCmp op) va vb with
+  | error e => exact Agree.err e s2 _
+  | ok b => cases b <;> exact Agree.ok hr
+
+theorem Ok.mono {F : FloatOps} {e a : Compile.Expr} {ρ : Compile.Env (coreSem F)} (h : Ok e ρ)
+    (hs : noCompound e = true → noCompound a = true) : Ok a ρ := h.imp hs id
+
+theorem Ok.step {F : FloatOps} {e a b : Compile.Expr} {ρ ρ1 : Compile.Env (coreSem F)} {va : Val} (h : Ok e ρ)
+    (hs : noCompound e = true → noCompound b = true) (ha : Compile.eval (coreSem F) a ρ = some (va, ρ1)) :
+    Ok b ρ1 :=
+  h.elim (fun h => Or.inl (hs h)) (fun h => Or.inr (ceval_plain F a ρ ρ1 va h ha).2)
+
+/-- **lockstep agreement.** On a well-formed expression inside the agreement envelope `Ok`, from
+related environments and with any fuel `n ≥ need e`, `Compile.eval (coreSem F) e` and
+`Core.eval F n (toCore e)` both succeed — with the same value, related final environments and an
+unchanged output trace — or both fail. -/
+theorem lockstep (F : FloatOps) : ∀ (e : Compile.Expr) (ρ : Compile.Env (coreSem F)) (st : St) (n : Nat),
+    wfE e = true → Ok e ρ → EnvRel ρ st.env → need e ≤ n →
+    Agree (Compile.eval (coreSem F) e ρ) (Core.eval F n (toCore e) st) st.out := by
+  intro e
+  induction e with
+  | null | bool _ | int _ =>
+    intro ρ st n _ _ hr hn
+    simp only [need] at hn
+    obtain ⟨m, rfl⟩ : ∃ m, n = m + 1 := ⟨n - 1, by omega⟩
+    simp only [toCore, Compile.eval, eval_lit']
+    exact Agree.ok hr
+  | var x =>
+    intro ρ st n _ _ hr hn
+    simp only [need] at hn
+    obtain ⟨m, rfl⟩ : ∃ m, n = m + 1 := ⟨n - 1, by omega⟩
+    simp only [toCore, Compile.eval]
+    cases hx : Core.lookup x st.env with
+    | none =>
+      rw [eval_var_none F m x st hx, hr x, hx]
+      exact Agree.err _ _ _
+    | some w =>
+      rw [eval_var_some F m x st w hx, hr x, hx]
+      exact Agree.ok hr
+  | un op a iha =>
+    intro ρ st n hw hok hr hn
+    simp only [need] at hn
+    obtain ⟨m, rfl⟩ : ∃ m, n = m + 1 := ⟨n - 1, by omega⟩
+    simp only [wfE] at hw
+    have hnc : noCompound (.un op a) = true → noCompound a = true := by simp [noCompound]
+    rw [ceval_un]
+    cases op with
+    | neg =>
+      simp only [toCore, eval_neg']
+      refine agree_bind (iha ρ st m hw (hok.mono hnc) hr (by omega)) ?_
+      intro va ρ1 s1 _ hr1 _
+      show Agree ((ofExcept (negV F va)).map _) _ _
+      cases negV F va with
+      | error e => exact Agree.err e s1 _
+      | ok r => exact Agree.ok hr1
+    | not =>
+      simp only [toCore, eval_not']
+      refine agree_bind (iha ρ st m hw (hok.mono hnc) hr (by omega)) ?_
+      intro va ρ1 s1 _ hr1 _
+      exact Agree.ok hr1
+  | bin op a b iha ihb =>
+    intro ρ st n hw hok hr hn
+    simp only [need] at hn
+    obtain ⟨m, rfl⟩ : ∃ m, n = m + 1 := ⟨n - 1, by omega⟩
+    simp only [wfE, Bool.and_eq_true, Bool.not_eq_true'] at hw
+    have hnc : noCompound (.bin op a b) = true → noCompound a = true ∧ noCompound b = true := by
+      simp [noCompound]
+    rw [ceval_bin]
+    simp only [toCore, eval_arith']
+    refine agree_bind (iha ρ st m hw.1.2 (hok.mono fun h => (hnc h).1) hr (by omega)) ?_
+    intro va ρ1 s1 ha hr1 _
+    refine agree_bind (ihb ρ1 s1 m hw.2 (hok.step (fun h => (hnc h).2) ha) hr1 (by omega)) ?_
+    intro vb ρ2 s2 _ hr2 _
+    exact agree_arith hw.1.1 va vb hr2
+  | cmp op a b iha ihb =>
+    intro ρ st n hw hok hr hn
+    simp only [need] at hn
+    obtain ⟨m, rfl⟩ : ∃ m, n = m + 2 := ⟨n - 2, by omega⟩
+    simp only [wfE, Bool.and_eq_true] at hw
+    have hnc : noCompound (.cmp op a b) = true → noCompound a = true ∧ noCompound b = true := by
+      simp [noCompound]
+    rw [ceval_cmp]
+    simp only [toCore, eval_cmp']
+    refine agree_bind (iha ρ st (m + 1) hw.1.2 (hok.mono fun h => (hnc h).1) hr (by omega)) ?_
+    intro va ρ1 s1 ha hr1 _
+    rw [evalChain_last]
+    refine agree_bind (ihb ρ1 s1 m hw.2 (hok.step (fun h => (hnc h).2) ha) hr1 (by omega)) ?_
+    intro vb ρ2 s2 _ hr2 _
+    exact agree_cmp_last hw.1.1 va vb hr2
+  | chain3 op1 op2 a b c iha ihb ihc =>
+    intro ρ st n hw hok hr hn
+    simp only [need] at hn
+    obtain ⟨m, rfl⟩ : ∃ m, n = m + 3 := ⟨n - 3, by omega⟩
+    simp only [wfE, Bool.and_eq_true] at hw
+    obtain ⟨⟨⟨⟨hop1, hop2⟩, hwa⟩, hwb⟩, hwc⟩ := hw
+    have hnc : noCompound (.chain3 op1 op2 a b c) = true →
+        noCompound a = true ∧ noCompound b = true ∧ noCompound c = true := by
+      simp only [noCompound, Bool.and_eq_true]; intro h; exact ⟨h.1.1, h.1.2, h.2⟩
+    rw [ceval_chain3]
+    simp only [toCore, eval_cmp']
+    refine agree_bind (iha ρ st (m + 2) hwa (hok.mono fun h => (hnc h).1) hr (by omega)) ?_
+    intro va ρ1 s1 ha hr1 _
+    rw [evalChain_more]
+    have hok1 : Ok (.chain3 op1 op2 a b c) ρ1 := hok.elim Or.inl (fun h => Or.inr (ceval_plain F a ρ ρ1 va h ha).2)
+    refine agree_bind (ihb ρ1 s1 (m + 1) hwb (hok1.mono fun h => (hnc h).2.1) hr1 (by omega)) ?_
+    intro vb ρ2 s2 hb hr2 _
+    simp only [hop1, if_true]
+    cases cmpV F (toCmp op1) va vb with
+    | error e => exact Agree.err e s2 _
+    | ok r =>
+      cases r with
+      | false => exact Agree.ok hr2
+      | true =>
+        simp only [Except.map, ofExcept, Val.truthy, if_true, chainStep]
+        rw [evalChain_last]
+        refine agree_bind (ihc ρ2 s2 m hwc (hok1.step (fun h => (hnc h).2.2) hb) hr2 (by omega)) ?_
+        intro vc ρ3 s3 _ hr3 _
+        exact agree_cmp_last hop2 vb vc hr3
+  | and a b iha ihb =>
+    intro ρ st n hw hok hr hn
+    simp only [need] at hn
+    obtain ⟨m, rfl⟩ : ∃ m, n = m + 1 := ⟨n - 1, by omega⟩
+    simp only [wfE, Bool.and_eq_true] at hw
+    have hnc : noCompound (.and a b) = true → noCompound a = true ∧ noCompound b = true := by
+      simp [noCompound]
+    rw [ceval_and]
+    simp only [toCore, eval_and]
+    refine agree_bind (iha ρ st m hw.1 (hok.mono fun h => (hnc h).1) hr (by omega)) ?_
+    intro va ρ1 s1 ha hr1 _
+    show Agree (if va.truthy = true then _ else _) _ _
+    split
+    · exact ihb ρ1 s1 m hw.2 (hok.step (fun h => (hnc h).2) ha) hr1 (by omega)
+    · exact Agree.ok hr1
+  | or a b iha ihb =>
+    intro ρ st n hw hok hr hn
+    simp only [need] at hn
+    obtain ⟨m, rfl⟩ : ∃ m, n = m + 1 := ⟨n - 1, by omega⟩
+    simp only [wfE, Bool.and_eq_true] at hw
+    have hnc : noCompound (.or a b) = true → noCompound a = true ∧ noCompound b = true := by
+      simp [noCompound]
+    rw [ceval_or]
+    simp only [toCore, eval_or]
+    refine agree_bind (iha ρ st m hw.1 (hok.mono fun h => (hnc h).1) hr (by omega)) ?_
+    intro va ρ1 s1 ha hr1 _
+    show Agree (if va.truthy = true then _ else _) _ _
+    split
+    · exact Agree.ok hr1
+    · exact ihb ρ1 s1 m hw.2 (hok.step (fun h => (hnc h).2) ha) hr1 (by omega)
+  | assign x e ih =>
+    intro ρ st n hw hok hr hn
+    simp only [need] at hn
+    obtain ⟨m, rfl⟩ : ∃ m, n = m + 1 := ⟨n - 1, by omega⟩
+    simp only [wfE] at hw
+    have hnc : noCompound (.assign x e) = true → noCompound e = true := by simp [noCompound]
+    rw [ceval_assign]
+    simp only [toCore, eval_assign]
+    refine agree_bind (ih ρ st m hw (hok.mono hnc) hr (by omega)) ?_
+    intro v ρ1 s1 _ hr1 _
+    exact ⟨s1.set x v, rfl, hr1.set x v, rfl⟩
+  | compound op x e ih =>
+    intro ρ st n hw hok hr hn
+    simp only [need] at hn
+    obtain ⟨m, rfl⟩ : ∃ m, n = m + 1 := ⟨n - 1, by omega⟩
+    simp only [wfE, Bool.and_eq_true, Bool.not_eq_true'] at hw
+    have hp : PlainEnv ρ := by
+      rcases hok with h | h
+      · simp [noCompound] at h
+      · exact h
+    rw [ceval_compound]
+    simp only [toCore]
+    cases hx : Core.lookup x st.env with
+    | none =>
+      rw [eval_opAssign_none F m x _ _ st hx, hr x, hx]
+      exact Agree.err _ _ _
+    | some vx =>
+      rw [eval_opAssign_some F m x _ _ st vx hx, hr x, hx]
+      refine agree_bind (ih ρ st m hw.2 (Or.inr hp) hr (by omega)) ?_
+      intro vr ρ1 s1 _ hr1 _
+      simp only [hw.1, Bool.false_eq_true, if_false]
+      rw [opAssignV_plain F _ vx vr (hp x vx (by rw [hr x, hx]))]
+      cases arithV F (toArith op) vx vr with
+      | error er => exact Agree.err er s1 _
+      | ok r => exact ⟨s1.set x r, rfl, hr1.set x r, rfl⟩
+  | seq a b iha ihb =>
+    intro ρ st n hw hok hr hn
+    simp only [need] at hn
+    obtain ⟨m, rfl⟩ : ∃ m, n = m + 4 := ⟨n - 4, by have := need_pos a; have := need_pos b; omega⟩
+    simp only [wfE, Bool.and_eq_true] at hw
+    have hnc : noCompound (.seq a b) = true → noCompound a = true ∧ noCompound b = true := by
+      simp [noCompound]
+    rw [ceval_seq]
+    simp only [toCore, eval_block2]
+    refine agree_bind (iha ρ st (m + 2) hw.1 (hok.mono fun h => (hnc h).1) hr (by have := need_pos b; omega)) ?_
+    intro va ρ1 s1 ha hr1 _
+    have hb := ihb ρ1 s1 (m + 1) hw.2 (hok.step (fun h => (hnc h).2) ha) hr1 (by have := need_pos a; omega)
+    cases hcb : Compile.eval (coreSem F) b ρ1 with
+    | none =>
+      rw [hcb] at hb
+      obtain ⟨er, s2, h2⟩ := hb
+      rw [h2]; exact Agree.err er s2 _
+    | some p =>
+      obtain ⟨vb, ρ2⟩ := p
+      rw [hcb] at hb
+      obtain ⟨s2, h2, hr2, ho2⟩ := hb
+      rw [seq_ok_id h2]
+      exact ⟨s2, rfl, hr2, ho2⟩
+  | ite c t e ihc iht ihe =>
+    intro ρ st n hw hok hr hn
+    simp only [need] at hn
+    obtain ⟨m, rfl⟩ : ∃ m, n = m + 1 := ⟨n - 1, by omega⟩
+    simp only [wfE, Bool.and_eq_true] at hw
+    have hnc : noCompound (.ite c t e) = true →
+        noCompound c = true ∧ noCompound t = true ∧ noCompound e = true := by
+      simp only [noCompound, Bool.and_eq_true]; intro h; exact ⟨h.1.1, h.1.2, h.2⟩
+    rw [ceval_ite]
+    simp only [toCore, eval_ifElse']
+    refine agree_bind (ihc ρ st m hw.1.1 (hok.mono fun h => (hnc h).1) hr (by omega)) ?_
+    intro vc ρ1 s1 hc hr1 _
+    show Agree (if vc.truthy = true then _ else _) _ _
+    split
+    · exact iht ρ1 s1 m hw.1.2 (hok.step (fun h => (hnc h).2.1) hc) hr1 (by omega)
+    · exact ihe ρ1 s1 m hw.2 (hok.step (fun h => (hnc h).2.2) hc) hr1 (by omega)
+  | ifThen c t ihc iht =>
+    intro ρ st n hw hok hr hn
+    simp only [need] at hn
+    obtain ⟨m, rfl⟩ : ∃ m, n = m + 1 := ⟨n - 1, by omega⟩
+    simp only [wfE, Bool.and_eq_true] at hw
+    have hnc : noCompound (.ifThen c t) = true → noCompound c = true ∧ noCompound t = true := by
+      simp [noCompound]
+    rw [ceval_ifThen]
+    simp only [toCore, eval_ifThen]
+    refine agree_bind (ihc ρ st m hw.1 (hok.mono fun h => (hnc h).1) hr (by omega)) ?_
+    intro vc ρ1 s1 hc hr1 _
+    show Agree (if vc.truthy = true then _ else _) _ _
+    split
+    · exact iht ρ1 s1 m hw.2 (hok.step (fun h => (hnc h).2) hc) hr1 (by omega)
+    · exact Agree.ok hr1
 
 end KotoVerif.C01
